@@ -104,6 +104,51 @@ theorem verifies_iff (g1 : G1) (hg : g1 ≠ 0) (Hm : Msg → G2) (s : F) (m : Ms
   · intro h
     exact ⟨s, rfl, h⟩
 
+/-- **An accepted signature is not a signature over another message.** If `σ` verifies under the
+key of a non-zero secret for `m`, it does not verify under that key for any `m'` hashing to a
+different point. -/
+theorem verify_other_message_rejected (g1 : G1) (hg : g1 ≠ 0) (Hm : Msg → G2) (s : F) (hs : s ≠ 0)
+    (m m' : Msg) (hmm : Hm m' ≠ Hm m) (σ : G2) (hacc : Verifies F g1 Hm (pk g1 s) m σ) :
+    ¬ Verifies F g1 Hm (pk g1 s) m' σ := by
+  intro h'
+  have h1 := (verifies_iff g1 hg Hm s m σ).mp hacc
+  have h2 := (verifies_iff g1 hg Hm s m' σ).mp h'
+  unfold sign at h1 h2
+  have h3 : s • (Hm m' - Hm m) = 0 := by rw [smul_sub, ← h1, ← h2, sub_self]
+  rcases smul_eq_zero.mp h3 with h | h
+  · exact hs h
+  · exact hmm (sub_eq_zero.mp h)
+
+/-- **An accepted signature does not verify under another key.** -/
+theorem verify_other_key_rejected (g1 : G1) (hg : g1 ≠ 0) (Hm : Msg → G2) (s s' : F) (hss : s' ≠ s)
+    (m : Msg) (hH : Hm m ≠ 0) (σ : G2) (hacc : Verifies F g1 Hm (pk g1 s) m σ) :
+    ¬ Verifies F g1 Hm (pk g1 s') m σ := by
+  intro h'
+  have h1 := (verifies_iff g1 hg Hm s m σ).mp hacc
+  have h2 := (verifies_iff g1 hg Hm s' m σ).mp h'
+  unfold sign at h1 h2
+  have h3 : (s' - s) • Hm m = 0 := by rw [sub_smul, ← h1, ← h2, sub_self]
+  rcases smul_eq_zero.mp h3 with h | h
+  · exact hss (sub_eq_zero.mp h)
+  · exact hH h
+
+/-- **Verification is stateless.** `Verifies` is a predicate of (key, message, signature) only. Any
+implementation `impl history key m σ` that refines it — the obligation `tbls.Verify` must meet,
+whatever it remembers of earlier calls — after accepting `σ` for `m` under the key of `s` in some
+history, in *every* history still accepts exactly that triple, rejects `σ` for every message
+hashing elsewhere and rejects it under every other key. (A memo of accepted (key, signature) pairs
+that forgets the message does not refine `Verifies`.) -/
+theorem verify_stateless {H : Type*} (impl : H → G1 → Msg → G2 → Prop) (g1 : G1) (hg : g1 ≠ 0)
+    (Hm : Msg → G2) (hrefine : ∀ h K m σ, impl h K m σ ↔ Verifies F g1 Hm K m σ)
+    (s : F) (hs : s ≠ 0) (m : Msg) (σ : G2) (h0 : H) (hacc : impl h0 (pk g1 s) m σ) (h1 : H) :
+    impl h1 (pk g1 s) m σ ∧
+    (∀ m', Hm m' ≠ Hm m → ¬ impl h1 (pk g1 s) m' σ) ∧
+    (∀ s', s' ≠ s → Hm m ≠ 0 → ¬ impl h1 (pk g1 s') m σ) := by
+  have hv := (hrefine h0 _ _ _).mp hacc
+  refine ⟨(hrefine h1 _ _ _).mpr hv, fun m' hmm hi => ?_, fun s' hss hH hi => ?_⟩
+  · exact verify_other_message_rejected g1 hg Hm s hs m m' hmm σ hv ((hrefine h1 _ _ _).mp hi)
+  · exact verify_other_key_rejected g1 hg Hm s s' hss m hH σ hv ((hrefine h1 _ _ _).mp hi)
+
 /-- **A signature made with a wrong share is rejected.** If in a qualified set the contribution of
 identifier `j` is replaced by a signature (over the same message) under any scalar `s' ≠ p j`, the
 combination is not the group signature and does not verify under the group key. -/
@@ -269,6 +314,13 @@ example :
   refine (wrong_message_rejected 2 pEx pEx_deg _ (by decide) h.1 h.2 (1 : ℚ) one_ne_zero _ 0 5
     (by norm_num) 1 (by decide) ?_).2
   simp [share, pEx]; norm_num
+
+/-- the group signature over message 0 (accepted) is rejected for message 5, in whatever "history". -/
+example :
+    ¬ Verifies ℚ (1 : ℚ) (fun k : ℕ => (k + 1 : ℚ)) (pk (1 : ℚ) (3 : ℚ)) 5
+      (sign (fun k : ℕ => (k + 1 : ℚ)) (3 : ℚ) 0) :=
+  verify_other_message_rejected (1 : ℚ) one_ne_zero _ 3 (by norm_num) 0 5 (by norm_num) _
+    ⟨3, rfl, rfl⟩
 
 /-- The side conditions are needed: with identifier `0` in the set (zero scalar), the other
 contribution has coefficient 0 and a wrong share there goes unnoticed. -/
